@@ -213,13 +213,22 @@ func c5Check(c *Ctx, tn, class string, fn *ssa.Function) {
 			if !ok {
 				continue
 			}
-			s := AtomString(a)
+			s := atomStringRaw(a)
 			resD := Desc(in)
+			// normalise to "big > small"
+			op := b.Op
+			if !a.Pol {
+				op = negOp[op]
+			}
+			big, small := b.X, b.Y
+			switch op {
+			case token.LSS:
+				big, small, op = b.Y, b.X, token.GTR
+			}
 			switch {
-			case (s == "len("+resD+".cores) > "+Desc(b.Y) || s == "len("+resD+".cores) != "+Desc(b.Y)) && sliceHas(b.Y, func(v ssa.Value) bool { return Desc(v) == "len("+ce.Name()+".cores)" }):
+			case (op == token.GTR || op == token.NEQ) && isCoreCountOf(big, in, 0) && isCoreCountOf(small, ce, 0):
 				evidence, verdict = s, "ok"
 			case s == resD+" != nil" || s == resD+" == nil":
-				// nil-ness alone is not acceptance evidence; keep looking
 				if verdict == "undecided" {
 					evidence = s
 				}
@@ -559,12 +568,14 @@ func c5Increase(c *Ctx) {
 	name := fn.String()
 	coreP, lvlP := fn.Params[0], fn.Params[1]
 	var probeCore, probeLvl *ssa.Call
-	for _, cl := range Calls(fn) {
+	for _, cl := range CallsDeep(fn) {
 		if isEnabledCall(cl) {
 			call := cl.(*ssa.Call)
-			if call.Call.Value == ssa.Value(coreP) {
+			var d string
+			Bound(func() { d = Desc(call.Call.Value) })
+			if call.Call.Value == ssa.Value(coreP) || d == coreP.Name() {
 				probeCore = call
-			} else if call.Call.Value == ssa.Value(lvlP) {
+			} else if call.Call.Value == ssa.Value(lvlP) || d == lvlP.Name() {
 				probeLvl = call
 			}
 		}
@@ -594,8 +605,12 @@ func c5Increase(c *Ctx) {
 			c.Check(!inL && isAlloc, "R5.4", name, "success-after-loop#"+itoa(k+1), r.Pos(), "the filtered core is built only after every level was validated")
 		} else {
 			nErr++
-			atoms := AtomStrings(Guards(r))
-			want1, want2 := "!"+Desc(probeCore), Desc(probeLvl)
+			var atoms []string
+			var want1, want2 string
+			Bound(func() {
+				atoms = AtomStrings(Guards(r))
+				want1, want2 = "!"+Desc(probeCore), Desc(probeLvl)
+			})
 			has1, has2 := false, false
 			for _, a := range atoms {
 				has1 = has1 || a == want1
@@ -665,4 +680,52 @@ func c5Atomic(c *Ctx) {
 func ConstObjInt(o *types.Const) (int64, bool) {
 	v, exact := constant.Int64Val(constant.ToInt(o.Val()))
 	return v, exact
+}
+
+// isCoreCountOf: v is the number of cores registered on checked entry `of`
+// (len(of.cores)), possibly nil-guarded (φ(0, len)) or computed by a pure
+// helper applied to `of`.
+func isCoreCountOf(v ssa.Value, of ssa.Value, depth int) bool {
+	if depth > 4 {
+		return false
+	}
+	switch x := v.(type) {
+	case *ssa.Call:
+		if CallBuiltin(x) == "len" {
+			if u, ok := x.Call.Args[0].(*ssa.UnOp); ok {
+				if fa, ok := u.X.(*ssa.FieldAddr); ok && fieldName(fa.X.Type(), fa.Field) == "cores" {
+					return Strip(fa.X) == Strip(of)
+				}
+			}
+			return false
+		}
+		callee := x.Call.StaticCallee()
+		if callee != nil && curProgRoot(callee) && len(x.Call.Args) == 1 && Strip(x.Call.Args[0]) == Strip(of) && sideEffectFree(callee, 0) {
+			n := 0
+			for _, r := range Returns(callee) {
+				rv := RetVals(r)[0]
+				if k, isC := ConstInt(rv); isC && k == 0 {
+					continue
+				}
+				if !isCoreCountOf(rv, callee.Params[0], depth+1) {
+					return false
+				}
+				n++
+			}
+			return n > 0
+		}
+	case *ssa.Phi:
+		n := 0
+		for _, e := range x.Edges {
+			if k, isC := ConstInt(e); isC && k == 0 {
+				continue
+			}
+			if !isCoreCountOf(e, of, depth+1) {
+				return false
+			}
+			n++
+		}
+		return n > 0
+	}
+	return false
 }
